@@ -179,9 +179,14 @@ func run(pass *analysis.Pass) (any, error) {
 				}
 
 				nillity := nilnessRes.Nilness(obj, idx)
+				// FuncValue returns nil for functions of packages that
+				// aren't imported directly, e.g. methods of a type
+				// obtained from a direct import. Like all external
+				// functions, these have to be assumed to be nontrivial.
+				irfn := irpkg.Pkg.Prog.FuncValue(obj)
 				if nillity.Outer == nilness.NeverNil &&
 					!code.IsInTest(pass, binop) &&
-					!irutil.IsTrivial(irpkg.Pkg.Prog.FuncValue(obj)) {
+					(irfn == nil || !irutil.IsTrivial(irfn)) {
 					// Don't flag these comparisons in tests. Tests may be
 					// explicitly enforcing the invariant that a value isn't
 					// nil.
